@@ -3,6 +3,7 @@ package jsonrpc
 import (
 	"context"
 	"encoding/hex"
+	"errors"
 	"fmt"
 	"net/http"
 	"strings"
@@ -35,6 +36,46 @@ type API struct {
 		GasMultiplier     func(context.Context) (float64, error)                                         `perm:"read"`
 		GasPrice          func(context.Context) (float64, error)                                         `perm:"read"`
 	}
+}
+
+// submissionErrors are the errors of the DA interface that the node's submission helper
+// tells apart with errors.Is.
+var submissionErrors = []error{
+	da.ErrTxTimedOut,
+	da.ErrTxAlreadyInMempool,
+	da.ErrTxIncorrectAccountSequence,
+	da.ErrBlobSizeOverLimit,
+	da.ErrContextDeadline,
+}
+
+// identifiedError carries the message received over the wire and unwraps to the DA
+// interface error it stands for.
+type identifiedError struct {
+	error
+	known error
+}
+
+func (e identifiedError) Unwrap() error { return e.known }
+
+// restoreErrorIdentity gives an error received over JSON-RPC the identity of the DA
+// interface error whose message it carries. The serialization keeps only the message
+// text, so without this errors.Is never matches on the client side and every
+// submission failure is classified as a generic error.
+func restoreErrorIdentity(err error) error {
+	if err == nil {
+		return nil
+	}
+	msg := err.Error()
+	for _, known := range submissionErrors {
+		if errors.Is(err, known) {
+			return err
+		}
+		text := known.Error()
+		if msg == text || strings.HasSuffix(msg, ": "+text) || strings.HasPrefix(msg, text+": ") {
+			return identifiedError{error: err, known: known}
+		}
+	}
+	return err
 }
 
 // Get returns Blob for each given ID, or an error.
@@ -136,7 +177,7 @@ func (api *API) Submit(ctx context.Context, blobs []da.Blob, gasPrice float64, _
 	} else {
 		api.Logger.Debug("RPC call successful", "method", "Submit", "num_ids_returned", len(res))
 	}
-	return res, err
+	return res, restoreErrorIdentity(err)
 }
 
 // SubmitWithOptions submits the Blobs to Data Availability layer with additional options.
@@ -190,7 +231,7 @@ func (api *API) SubmitWithOptions(ctx context.Context, inputBlobs []da.Blob, gas
 		api.Logger.Debug("RPC call successful", "method", "SubmitWithOptions", "num_ids_returned", len(res))
 	}
 
-	return res, err
+	return res, restoreErrorIdentity(err)
 }
 
 func (api *API) GasMultiplier(ctx context.Context) (float64, error) {
